@@ -159,7 +159,8 @@ def run(report, replay=None):
 
     # (c) strings
     pool = [chr(c) for c in range(32, 127) if chr(c) != '"'] + ['\t', 'é', 'ß', '→', '\\']
-    strings = ['', ' ', '#', 'a # b', '\\', 'ab\\', '\\n', '{}', '{0}', 'end', 'set "', "it's", '  lead', 'trail  ', '[x]', '%', '# not a comment', 'a\\']
+    strings = ['{', '}', '[', ']', '(', ')', '-', '+', '*', '/', '%', '^', ':', 'not', 'and', 'or', '==', '<', 'end', 'begin', 'all', '8:00', '5', 'hue',
+               '', ' ', '#', 'a # b', '\\', 'ab\\', '\\n', '{}', '{0}', 'end', 'set "', "it's", '  lead', 'trail  ', '[x]', '%', '# not a comment', 'a\\']
     strings = [s for s in strings if '"' not in s]
     for _ in range(2000 if tier == 'thorough' else 200):
         strings.append(''.join(rng.choice(pool) for _ in range(rng.randint(1, 12))))
